@@ -70,7 +70,9 @@ class Gen:
         c = r.below(100)
         vals = lambda d: True
         thunks = lambda d: d["kind"] == "t"
-        if c < 10 or not self.live():
+        if not self.live():
+            c = r.below(40)
+        if c < 8:
             self.emit("ni:%d" % r.below(5)); self.push(dict(kind="v", cls="inl", kids=[]))
         elif c < 40:
             self.emit("nd:%s:%d" % (r.choice("nsfk"), r.below(9))); self.push(dict(kind="v", cls="leaf", kids=[]))
@@ -202,6 +204,15 @@ class Gen:
                 elif d["cls"] == "thunk":
                     d["kind"] = "t"
         else:
+            if not self.live(thunks) and r.chance(4, 5):
+                # no thunk at hand: make one
+                s0 = self.pick(lambda d: True)
+                kid = self.take(s0)
+                rev = r.chance(1, 3)
+                self.emit(("nv:%d" % s0) if rev else ("nt:%d:-" % s0))
+                if kid is not None:
+                    self.push(dict(kind="t", cls="thunk", kids=[kid], rev=rev, cached=not rev))
+                return
             s = self.pick(thunks, stale=30)
             d = self.slots[s] if s < len(self.slots) else None
             isth = d is not None and d["kind"] == "t"
@@ -264,6 +275,26 @@ class Gen:
 
 def gen_history(rng, maxlen):
     return Gen(rng, maxlen).run()
+
+
+def exhaustive_small(depth):
+    """All histories of length <= depth over a small alphabet after a fixed prefix (thorough tier):
+    roots 0..5 = a shared number (0,1 moved into the array), an array (2) and its clone (3), a thunk
+    over a clone of the array (4 -> thunk 5)."""
+    prefix = "nd:n:1,cl:0,na:7:0.1,cl:2,cl:2,nt:4:-"
+    alpha = ["cl:2", "dr:2", "dr:3", "mm:2:o", "mm:3:p2", "cm:2:o", "lt:2", "lt:3", "sc:2", "mu:3",
+             "tf:5", "tg:5", "tu:6:3", "tc:5", "ts:5", "tv:5", "cl:5", "dr:5"]
+    out = []
+
+    def rec(pre, d):
+        if d == 0:
+            return
+        for a in alpha:
+            h = pre + [a]
+            out.append(prefix + "," + ",".join(h))
+            rec(h, d - 1)
+    rec([], depth)
+    return out
 
 
 def corpus():
@@ -522,6 +553,10 @@ def run(ck):
     n = 1500 if ck.tier == "quick" else 30000
     for i in range(n):
         cases.append(gen_history(rng.fork(), 60 if rng.chance(1, 10) else 25))
+    if ck.tier == "thorough":
+        ex = exhaustive_small(3)
+        ck.coverage["exhaustive_small_histories"] = len(ex)
+        cases += ex
     impl_out, model_out = run_hist(ck, cases, hook)
     for c, a in list(zip(cases, impl_out))[:2]:
         ck.sample({"history": c[:300], "impl_trace": a[:400]})
